@@ -60,7 +60,13 @@ class LedgerMonitor(Monitor):
     def final(self, silent=300.0):
         """300 s of virtual time with a silent peer, then look for leaked connections."""
         self.cur = 'FINAL'
+        while reactor.defer_io and reactor._io_pending:
+            reactor.sim_complete_close(0)
+            self.w.settle()
         self.w.advance(silent)
+        while reactor.defer_io and reactor._io_pending:
+            reactor.sim_complete_close(0)
+            self.w.settle()
         tracked = self.w.tracked_transport()
         for t in self.w.open_transports():
             if t is not tracked and not t.disconnecting:
